@@ -774,8 +774,8 @@ pub fn run() {
 			p.n[0] = depth as i64;
 			p.n[1] = closed as i64;
 			let art = json!({"property": "C06", "oracle": "deepmeta", "tier": "quick", "label": format!("metadata nested {} deep, closed={}", depth, closed), "params": p.to_json(), "input_hex": ""});
-			let path = format!("{}/replays/C06/deepmeta_{}_{}.json", VERIF, depth, closed as u8);
-			let _ = std::fs::create_dir_all(format!("{}/replays/C06", VERIF));
+			let path = format!("{}/replays/C06/deepmeta_{}_{}.json", verif_home(), depth, closed as u8);
+			let _ = std::fs::create_dir_all(format!("{}/replays/C06", verif_home()));
 			std::fs::write(&path, serde_json::to_string(&art).unwrap()).unwrap();
 			let o = std::process::Command::new(&exe).arg("replay").arg(&path).arg("--quiet").output().unwrap();
 			local.evaluations += 1;
